@@ -283,6 +283,16 @@ theorem child_window_origin (win : Win) (col row cols rows : Int) :
     (win.new col row cols rows).origin = ((win.origin).1 + col, (win.origin).2 + row) := by
   simp [Win.new, Win.origin]
 
+/-- **render_paints (clipping to the parent).** The window a child surface is painted in covers
+exactly the child's own `W×H` rectangle at parent origin + offset, intersected with everything
+that already clipped the parent. -/
+theorem child_window_clip (win : Win) (col row : Int) (s : Surface) (x y : Int) :
+    covers (win.new col row (Int.ofNat s.w.toNat) (Int.ofNat s.h.toNat)) x y ↔
+      (((win.origin).1 + col ≤ x ∧ x < (win.origin).1 + col + s.w.toNat ∧
+        (win.origin).2 + row ≤ y ∧ y < (win.origin).2 + row + s.h.toNat) ∧ covers win x y) := by
+  rw [VaxisModel.Lemmas.Window.origin_eq_absOrigin]
+  exact VaxisModel.Lemmas.Window.covers_new win col row _ _ (Int.natCast_nonneg _) (Int.natCast_nonneg _) x y
+
 theorem cellOps_positions (w : UInt16) (buf : List Cell) (i : Nat) (hi : i < buf.length) :
     (cellOps w buf)[i]? = some { col := Int.ofNat (i % w.toNat), row := Int.ofNat (i / w.toNat), cell := buf[i] } := by
   simp [cellOps, hi]
